@@ -560,7 +560,7 @@ pub fn run_check<C: Check>(chk: &C, ctx: &mut Ctx) {
                     .spawn_scoped(s, move || {
                         let mut out = ShardOut { stats: CheckStats::default(), failure: None, known: vec![] };
                         let strat = chk.strategy(tier);
-                        let cfg = Config { cases: per as u32, failure_persistence: None, max_shrink_iters: 4000, max_global_rejects: 1 << 30, ..Config::default() };
+                        let cfg = Config { cases: per as u32, failure_persistence: None, max_shrink_iters: 4000, max_global_rejects: 1 << 30, max_local_rejects: u32::MAX, ..Config::default() };
                         let rng = TestRng::from_seed(RngAlgorithm::ChaCha, &seed_bytes(seed, name, shard));
                         let mut runner = TestRunner::new_with_rng(cfg, rng);
                         let shrinking = std::cell::Cell::new(false);
